@@ -601,10 +601,19 @@ def replay(ctx, path):
     src = r.get("janet")
     if src and r.get("kind") in ("hang", "crash", "protocol", "broken-obligation"):
         asan = ctx.try_variant("asan")
+        cmd = [asan["janet"]]
+        if "run-tree-g" in src:         # guard pass: vm.c wrapper with the lowered guard + janet_vm.stackn readout
+            pre = prelude.prelude_guard(ctx.build.tree) + "\n"
+            cmd = [ctx.build.harness("asan", "c05guard", [os.path.join(VERIF, "harness", "C05", "guardmain.c")]), "1024"]
+        elif "run-tree-s" in src:       # task pass
+            pre = prelude.prelude_sched(ctx.build.tree) + "\n"
+            src += "\n(flush)\n(os/exit 0)"
+        else:
+            pre = prelude.prelude(ctx.build.tree) + "\n" if "run-tree" in src else ""
         fd, p = tempfile.mkstemp(prefix="c05-replay-", suffix=".janet", dir="/var/tmp")
         with os.fdopen(fd, "w") as f:
-            f.write((prelude.prelude(ctx.build.tree) + "\n" if "run-tree" in src else "") + src + "\n")
-        rc, out, err = run_cmd([asan["janet"], p], timeout=20, env=ENV)
+            f.write(pre + src + "\n")
+        rc, out, err = run_cmd(cmd + [p], timeout=60, env=ENV)
         os.unlink(p)
         print("replay on the implementation: rc=%r\nstdout: %s\nstderr: %s" % (rc, out.decode(errors="replace")[-1500:], err.decode(errors="replace")[-1500:]))
     return run(ctx)
